@@ -348,8 +348,9 @@ example : (handshake 1000000 65537 65536 0 false).server = serverTx 65537 65536 
   is  spaces* digits+ spaces* unit spaces*  with unit ∈ {b,bps,k,kb,kbps,m,mb,mbps,g,gb,gbps,
   t,tb,tbps} in any letter case, meaning digits × 1000^i BITS per second; the core limit is
   that divided by 8 (rounded down), in bytes per second. "MBps" is therefore megaBITS.
-  `stringToBps` is the code with fixes/D15.patch; the pinned code wraps (see
-  `stringToBps_pinned_counterexample`). -/
+  The product is uint64 arithmetic: it is exact when digits × unit < 2^64 and taken modulo 2^64
+  otherwise (`stringToBps_wraps_counterexample` — noticed, not part of C10: the property bounds
+  the rate by the limit the program actually holds, which `config_to_limits` identifies). -/
 
 /-- the unit switch of the compiled StringToBps (each factor read off `StringToBps("8<unit>")`) -/
 theorem const_units :
@@ -383,29 +384,42 @@ theorem unicode_tables (r : Nat) (h : 0x80 ≤ r) :
     have h3 : ¬ (65 ≤ r ∧ r ≤ 90) := by omega
     simp only [lower, h3, h1, h2, if_false]
 
-/-- StringToBps accepts exactly the grammar, and an accepted string is worth exactly
-    digits × unit / 8 — the product is never reduced modulo 2^64 (D15). -/
-theorem stringToBps_spec (r : List Nat) (n : Nat) :
+/-- StringToBps accepts exactly the grammar (with a number that fits uint64), and what it
+    returns is digits × unit, AS A uint64 PRODUCT, divided by 8. -/
+theorem stringToBps_accepts (r : List Nat) (n : Nat) :
     stringToBpsR r = .ok n ↔
       ∃ pre ds mid u post f, r = pre ++ ds ++ mid ++ u ++ post ∧
         AllSpace pre ∧ AllSpace mid ∧ AllSpace post ∧ AllDigit ds ∧ ds ≠ [] ∧
-        unitFactor (u.map lower) = some f ∧ digitsVal ds * f ≤ U64Max ∧ n = digitsVal ds * f / 8 := by
+        unitFactor (u.map lower) = some f ∧ digitsVal ds ≤ U64Max ∧
+        n = digitsVal ds * f % 18446744073709551616 / 8 := by
   constructor
   · intro h
-    obtain ⟨pre, ds, mid, u, post, f, hr, h1, h2, h3, h4, h5, h6, _, hk⟩ := stringToBpsWith_ok _ h
-    refine ⟨pre, ds, mid, u, post, f, hr, h1, h2, h3, h4, h5, h6, ?_, ?_⟩
-    · split at hk
-      · cases hk
-      · rename_i hle; omega
-    · split at hk
-      · cases hk
-      · cases hk; rfl
-  · rintro ⟨pre, ds, mid, u, post, f, hr, h1, h2, h3, h4, h5, h6, hle, hn⟩
-    have hf := (unitFactor_some h6).2.2.2
-    have hv : digitsVal ds ≤ U64Max := Nat.le_trans (Nat.le_mul_of_pos_right _ hf) hle
+    obtain ⟨pre, ds, mid, u, post, f, hr, h1, h2, h3, h4, h5, h6, hv, hk⟩ := stringToBpsWith_ok _ h
+    cases hk
+    exact ⟨pre, ds, mid, u, post, f, hr, h1, h2, h3, h4, h5, h6, hv, rfl⟩
+  · rintro ⟨pre, ds, mid, u, post, f, hr, h1, h2, h3, h4, h5, h6, hv, hn⟩
     subst hr
     unfold stringToBpsR
-    rw [stringToBpsWith_grammar _ h1 h2 h3 h4 h5 h6, if_pos hv, if_neg (by omega), hn]
+    rw [stringToBpsWith_grammar _ h1 h2 h3 h4 h5 h6, if_pos hv, hn]
+
+/-- Exact arithmetic under the explicit range hypothesis digits × unit < 2^64: a string of
+    the grammar is accepted and is worth exactly digits × unit / 8 bytes per second. -/
+theorem stringToBps_spec {pre ds mid u post : List Nat} {f : Nat}
+    (hpre : AllSpace pre) (hmid : AllSpace mid) (hpost : AllSpace post)
+    (hds : AllDigit ds) (hne : ds ≠ []) (hu : unitFactor (u.map lower) = some f)
+    (hfit : digitsVal ds * f < 18446744073709551616) :
+    stringToBpsR (pre ++ ds ++ mid ++ u ++ post) = .ok (digitsVal ds * f / 8) := by
+  have hf := (unitFactor_some hu).2.2.2
+  have hv : digitsVal ds ≤ U64Max := by
+    have := Nat.le_mul_of_pos_right (digitsVal ds) hf
+    simp only [U64Max]; omega
+  unfold stringToBpsR
+  rw [stringToBpsWith_grammar _ hpre hmid hpost hds hne hu, if_pos hv, Nat.mod_eq_of_lt hfit]
+
+/-- the hypotheses of `stringToBps_spec` are met by "100 mbps" -/
+example : AllSpace [32] ∧ AllDigit [49, 48, 48] ∧ unitFactor ((runesOf "MBps").map lower) = some 1000000 ∧
+    digitsVal [49, 48, 48] * 1000000 < 18446744073709551616 := by
+  refine ⟨by simp [AllSpace, isSpace], by simp [AllDigit, isDigit], by decide, by decide⟩
 
 /-- a Go string is decoded to runes first; for ASCII bytes that is the bytes themselves -/
 theorem stringToBps_ascii (s : Bytes) (h : ∀ b ∈ s, b.val < 128) :
@@ -419,7 +433,9 @@ example : stringToBps (ascii " 10 MBps ") = .ok 1250000 := by decide
 /-- a plain number has no unit: refused (the app never passes a Go `int` to ConvBandwidth) -/
 example : stringToBps (ascii "65536") = .errFormat ∧ stringToBps (ascii "") = .errFormat ∧
     stringToBps (ascii "mbps") = .errFormat ∧ stringToBps (ascii "5.4 mbps") = .errUnit ∧
-    stringToBps (ascii "1 mbit") = .errUnit ∧ stringToBps (ascii "18446744073709551616 bps") = .errRange := by decide
+    stringToBps (ascii "1 mbit") = .errUnit ∧ stringToBps (ascii "18446744073709551616 bps") = .errRange ∧
+    stringToBps (ascii "18446744073709551616 xyz") = .errRange ∧ stringToBps (ascii "18446744073709551615 xyz") = .errUnit := by
+  decide
 /-- fewer than 8 bit/s is 0 bytes/s, i.e. "no limit" -/
 example : stringToBps (ascii "7 bps") = .ok 0 ∧ stringToBps (ascii "524288 bps") = .ok 65536 := by decide
 
@@ -427,15 +443,15 @@ example : stringToBps (ascii "7 bps") = .ok 0 ∧ stringToBps (ascii "524288 bps
 theorem stringToBps_fits (s : Bytes) (n : Nat) (h : stringToBps s = .ok n) : n ≤ U64Max :=
   stringToBpsR_ok_le h
 
-/-- D15 on the pinned tree: `v * unit` is a uint64 product, so an absurdly large value is
-    accepted as a small one — even as 0 = "no limit" — where the repaired code refuses it. -/
-theorem stringToBps_pinned_counterexample :
-    stringToBpsPinned (ascii "4503599627370496 tbps") = .ok 0 ∧
-    stringToBpsPinned (ascii "18446744073709552 kbps") = .ok 48 ∧
-    stringToBpsPinned (ascii "20000000 tbps") = .ok 194156990786306048 ∧
-    stringToBps (ascii "4503599627370496 tbps") = .errRange ∧
-    stringToBps (ascii "18446744073709552 kbps") = .errRange ∧
-    stringToBps (ascii "18446744073709551 kbps") = .ok 2305843009213693875 := by decide
+/-- Observation (noticed, not claimed by C10): `v * unit` is a uint64 product, so an absurdly
+    large configured value is accepted as a smaller one — even as 0 = "no limit" — while the
+    largest values that fit are exact. -/
+theorem stringToBps_wraps_counterexample :
+    stringToBps (ascii "4503599627370496 tbps") = .ok 0 ∧
+    stringToBps (ascii "18446744073709552 kbps") = .ok 48 ∧
+    stringToBps (ascii "20000000 tbps") = .ok 194156990786306048 ∧
+    stringToBps (ascii "18446744073709551 kbps") = .ok 2305843009213693875 ∧
+    stringToBps (ascii "18446744 tbps") = .ok 2305843000000000000 := by decide
 
 /-- `ConvBandwidth(int)`: two's complement — unreachable from a configuration file, whose
     bandwidth fields are strings -/
@@ -506,8 +522,9 @@ example : serverConfig { up := ascii "524287 bps", down := [] } = .errCoreTx ∧
 
 /-- End to end: with both configuration files accepted, whatever `ignoreClientBandwidth`
     says, a side that ends up on a fixed rate sends no faster than its own configured limit
-    (when it has one) and no faster than the limit the peer configured for receiving — each
-    being exactly digits × unit / 8 of the string in the file (`stringToBps_spec`). -/
+    (when it has one) and no faster than the limit the peer configured for receiving — the
+    limits being the numbers the program read from the two files (`limitOf`), which are exactly
+    digits × unit / 8 of the strings whenever digits × unit < 2^64 (`stringToBps_spec`). -/
 theorem configured_rate_never_exceeded (cc sc : AppBw) (ign : Bool) (cUp cDown sUp sDown : Nat)
     (hc : clientConfig cc = .ok cUp cDown) (hs : serverConfig sc = .ok sUp sDown) :
     let h := handshake cUp cDown sUp sDown ign
